@@ -331,8 +331,12 @@ def _with_guards(effects, guards=()):
             guards = guards + ((c, pol),)
             continue
         if isinstance(e, App) and e.op == "eff:if":
-            yield from _with_guards(e.args[1].args, guards + ((e.args[0], True),))
-            yield from _with_guards(e.args[2].args, guards + ((e.args[0], False),))
+            c, pol = e.args[0], True
+            while isinstance(c, App) and c.op in ("not", "truth") and len(c.args) == 1:
+                pol = (not pol) if c.op == "not" else pol
+                c = c.args[0]
+            yield from _with_guards(e.args[1].args, guards + ((c, pol),))
+            yield from _with_guards(e.args[2].args, guards + ((c, not pol),))
         elif isinstance(e, App) and e.op == "eff:loop":
             yield from _with_guards(e.args[1].args, guards)
         elif isinstance(e, App) and e.op in ("eff:partial",):
